@@ -318,8 +318,16 @@ type Partial struct {
 	dead  bool // this outcome cannot happen
 }
 
+type logEntry struct {
+	Size *Lin   // octets written (nil: unknown)
+	Val  *Lin   // integer value written (nil: not an integer / unknown)
+	Desc string
+	Pos  int
+}
+
 type State struct {
 	u      *Universe
+	logs   map[*AObj][]logEntry // per modelled bytes.Buffer: what was written, in order (nil entry list = unknown)
 	itv    map[atomID]Itv
 	nils   map[symID]nilness
 	facts  map[string]*Lin
@@ -329,7 +337,7 @@ type State struct {
 }
 
 func newState(u *Universe) *State {
-	return &State{u: u, itv: map[atomID]Itv{}, nils: map[symID]nilness{}, facts: map[string]*Lin{}, mem: map[*AObj]map[string]AVal{}, guards: map[symID]*Guard{}}
+	return &State{u: u, logs: map[*AObj][]logEntry{}, itv: map[atomID]Itv{}, nils: map[symID]nilness{}, facts: map[string]*Lin{}, mem: map[*AObj]map[string]AVal{}, guards: map[symID]*Guard{}}
 }
 
 func (s *State) clone() *State {
@@ -354,7 +362,39 @@ func (s *State) clone() *State {
 	for k, v := range s.guards {
 		n.guards[k] = v
 	}
+	for k, v := range s.logs {
+		n.logs[k] = v // entries are append-only copies (see appendLog)
+	}
 	return n
+}
+
+func (s *State) appendLog(o *AObj, e logEntry) {
+	old, ok := s.logs[o]
+	if !ok {
+		return // unknown log stays unknown
+	}
+	n := make([]logEntry, len(old)+1)
+	copy(n, old)
+	n[len(old)] = e
+	s.logs[o] = n
+}
+
+func sameLog(a, b []logEntry) bool {
+	if len(a) != len(b) {
+		return false
+	}
+	for i := range a {
+		if (a[i].Size == nil) != (b[i].Size == nil) || (a[i].Val == nil) != (b[i].Val == nil) {
+			return false
+		}
+		if a[i].Size != nil && a[i].Size.key() != b[i].Size.key() {
+			return false
+		}
+		if a[i].Val != nil && a[i].Val.key() != b[i].Val.key() {
+			return false
+		}
+	}
+	return true
 }
 
 func (s *State) atomItv(a atomID) Itv {
@@ -554,6 +594,11 @@ func joinStates(a, b *State) *State {
 	for k, g := range a.guards {
 		if b.guards[k] == g {
 			n.guards[k] = g
+		}
+	}
+	for o, la := range a.logs {
+		if lb, ok := b.logs[o]; ok && sameLog(la, lb) {
+			n.logs[o] = la
 		}
 	}
 	return n
